@@ -13,7 +13,8 @@ import asyncio
 import ssl
 
 import anyio
-from anyio import BrokenResourceError, ClosedResourceError, EndOfStream, create_task_group
+from anyio import (BrokenResourceError, BusyResourceError, CancelScope, ClosedResourceError, EndOfStream,
+                   create_task_group)
 from anyio.abc import ByteStream
 from anyio.streams.tls import TLSStream
 
@@ -69,6 +70,9 @@ def _gen(g):
             "recv": {"c": [g.choice([1, 7, 100, 1000, 16384, 65536, 70000]) for _ in range(g.int(1, 3))],
                      "s": [g.choice([1, 7, 100, 1000, 16384, 65536, 70000]) for _ in range(g.int(1, 3))]},
             "closer": g.choice(["c", "s"])}
+    # (cases may carry "doomed": {side: [receive indexes]} = receives made in an already cancelled scope; NOT generated:
+    # the statement does not quantify over cancellation, and on the unchanged tree a receive() cancelled while it
+    # flushes pending outgoing TLS data loses that data - see DESIGN 9.2)
 
 
 _strategy = composite(_gen)
@@ -126,6 +130,8 @@ class End(ByteStream):
     def __init__(self, rx, tx):
         self.rx, self.tx = rx, tx
         self.closed = False
+        self.sending = False
+        self.overlap = False
 
     async def receive(self, max_bytes=65536):
         if self.closed:
@@ -135,8 +141,17 @@ class End(ByteStream):
     async def send(self, item):
         if self.closed:
             raise ClosedResourceError
-        await asyncio.sleep(0)
-        self.tx.write(item)
+        if self.sending:
+            # like every real byte stream: two tasks writing at once are rejected (and remembered for the verdict)
+            self.overlap = True
+            raise BusyResourceError("sending to")
+        self.sending = True
+        try:
+            for _ in range(1 + len(item) // 16384):
+                await asyncio.sleep(0)
+            self.tx.write(item)
+        finally:
+            self.sending = False
 
     async def send_eof(self):
         self.tx.close()
@@ -191,6 +206,8 @@ def run_case(case) -> Outcome:
         pipes["cs"], pipes["sc"] = cs, sc
         ends = {"c": End(sc, cs), "s": End(cs, sc)}
         sent = {"c": payload("c", case["msgs"]["c"]), "s": payload("s", case["msgs"]["s"])}
+        doomed = {k: set(v) for k, v in (case.get("doomed") or {}).items()}
+        res["ends"] = ends
         done_sending = {"c": asyncio.Event(), "s": asyncio.Event()}
 
         async def side(me):
@@ -241,6 +258,16 @@ def run_case(case) -> Outcome:
                             break
                         n = sizes[i % len(sizes)]
                         i += 1
+                        if i in doomed.get(me, ()):
+                            # a receive() made in an already cancelled scope: it either raises or hands out data,
+                            # but nothing may get lost
+                            with CancelScope() as dsc:
+                                dsc.cancel()
+                                try:
+                                    r["recv"] += await tls.receive(n)
+                                except (EndOfStream, BrokenResourceError, ssl.SSLError):
+                                    pass
+                            r["doomed"] = r.get("doomed", 0) + 1
                         try:
                             data = await tls.receive(n)
                         except EndOfStream:
@@ -282,6 +309,9 @@ def run_case(case) -> Outcome:
         out.bad("hang", "busy-loop", f"{case}: {e!r}")
         return out
     sent = res["sent"]
+    for me in "cs":
+        if res["ends"][me].overlap:
+            out.bad("concurrent-send-on-transport", me, f"{case}: two tasks of side {me} wrote to the wrapped stream at once")
     for me, peer, pipe in (("c", "s", pipes["sc"]), ("s", "c", pipes["cs"])):
         r = res[me]
         got = bytes(r.get("recv", b""))
@@ -323,6 +353,8 @@ def run_case(case) -> Outcome:
     for me in "cs":
         if res[me].get("end"):
             out.labels.append(f"end:{res[me]['end']}")
+        if res[me].get("doomed"):
+            out.labels.append("receive-in-cancelled-scope")
     if case["chunks"]["cs"] == [1] or case["chunks"]["sc"] == [1]:
         out.labels.append("1-byte-chunks")
     out.history = {k: (v.get("end"), len(v.get("recv", b""))) for k, v in res.items() if k in "cs"}
